@@ -1,0 +1,18 @@
+//go:build verif
+
+// Machine-checked contracts for this package (comment-only; compiled only with
+// the build tag `verif`). Read by /verif/engine (govc); see /verif/DESIGN.md.
+package dce
+
+// visitExprHandles must call f on every ExpressionHandle an expression kind
+// holds: the liveness marking of the dead-code pass is built on it, and a
+// handle it does not visit is an operand the pass believes unused.
+// The obligation is derived from the type declarations of ir.ExpressionKind.
+//
+//@ func visitExprHandles
+//@   mode bv
+//@   tags C13
+//@   callback f visited
+//@   traverse mark kind ir.ExpressionHandle visited($)
+//@   except ExprCompose.Components ExprPhi.Incoming
+//@   nopanic
